@@ -146,6 +146,8 @@ def pick(rng, names):
         return compose(rng)
     if n == "sibling-bindings":
         return sibling_bindings(rng)
+    if n == "dotted-keys":
+        return dotted_keys(rng)
     if n == "nested-entry":
         return nested_entry(rng)
     if n == "rewait":
@@ -178,6 +180,24 @@ def nested(rng, depth=None):
 
     inputs = {k: f"run:{k}" for k in ref.ref_inputs(cur)[0]}
     return {"family": "nested", "spec": cur, "inputs": inputs, "kw": {}, "unique_outputs": True}
+
+
+def dotted_keys(rng):
+    """A nested program run with an extra value under a dotted key "<nested node>.<inner name>" that addresses an ORDINARY
+    inner input or inner output (not the answer of a nested interrupt). Whatever the library makes of such a key, both
+    runners and every schedule make the same of it."""
+    from hgmon import ref
+
+    fam = nested(rng, depth=rng.randint(1, 2))
+    spec = fam["spec"]
+    subs = [ns for ns in spec["nodes"] if ns["k"] == "sub"]
+    inputs = dict(fam["inputs"])
+    if subs:
+        sub = rng.choice(subs)
+        inner_names = [i for i, _ in ref.node_inputs(sub)] + [e for x in sub["prog"]["nodes"] for e in ref.data_output_names(x)]
+        if inner_names:
+            inputs[f"{ref.node_name(sub)}.{rng.choice(inner_names)}"] = "run:dotted"
+    return {"family": "nested", "spec": spec, "inputs": inputs, "kw": {}, "unique_outputs": True, "template": "dotted-key"}
 
 
 def mapped(rng, err=None):
